@@ -211,7 +211,7 @@ impl Check for C12 {
                         2..=6 => rng.usize(600),
                         7 | 8 => rng.usize(4097),
                         _ => {
-                            if thorough || rng.chance(1, 6) {
+                            if thorough || rng.chance(1, 2) {
                                 8090 + rng.usize(40) // around e^9 = 8103.08: first Pippenger size
                             } else {
                                 rng.usize(1200)
